@@ -186,3 +186,110 @@ pub fn zero_offset_ns(ts: TimeScale) -> i128 {
     };
     (days as i128) * (NPD as i128) + (behind_s as i128) * (NPS as i128)
 }
+
+/// (c, n) + delta nanoseconds, |delta| < 3 centuries, no loops, no products of symbolic values.
+/// Returns None when the century field would leave the i16 range.
+pub fn shift_parts(p: (i16, u64), delta: i128) -> Option<(i16, u64)> {
+    let npc = NPC as i128;
+    let mut c = p.0 as i32;
+    let mut n = p.1 as i128 + delta;
+    if n < 0 {
+        n += npc;
+        c -= 1;
+    }
+    if n < 0 {
+        n += npc;
+        c -= 1;
+    }
+    if n < 0 {
+        n += npc;
+        c -= 1;
+    }
+    if n >= npc {
+        n -= npc;
+        c += 1;
+    }
+    if n >= npc {
+        n -= npc;
+        c += 1;
+    }
+    if n >= npc {
+        n -= npc;
+        c += 1;
+    }
+    if c < i16::MIN as i32 || c > i16::MAX as i32 || n < 0 || n >= npc {
+        None
+    } else {
+        Some((c as i16, n as u64))
+    }
+}
+
+/// TAI elapsed time minus the scale's own elapsed time, for the same instant (uniform scales).
+pub fn tai_minus_scale_ns(ts: TimeScale) -> i128 {
+    match ts {
+        TimeScale::TT => -32_184_000_000, // TT - TAI = 32.184 s, same zero label
+        _ => zero_offset_ns(ts),
+    }
+}
+
+/// TAI-UTC in force at a UTC time given as whole seconds since 1900 (floor), from the generated table.
+pub fn oracle_delta_at(utc_s: i128) -> u64 {
+    let t = super::generated::ORACLE_LEAPS;
+    let mut d = 0u64;
+    let mut i = 0;
+    while i < t.len() {
+        if utc_s >= t[i].0 as i128 {
+            d = t[i].1;
+        }
+        i += 1;
+    }
+    d
+}
+
+/// Pick a uniform scale nondeterministically but hand it to `f` as a *constant* in each arm, so the
+/// symbolic executor constant-folds the per-scale match arms of the code under test (a symbolic
+/// TimeScale drags the UTC leap-second loop and the ET/TDB float iterations into every formula).
+#[inline(always)]
+pub fn with_uniform<S: Src>(s: &mut S, f: impl Fn(&mut S, TimeScale)) {
+    let u = s.u8();
+    s.assume(u < 6);
+    match u {
+        0 => f(s, TimeScale::TAI),
+        1 => f(s, TimeScale::TT),
+        2 => f(s, TimeScale::GPST),
+        3 => f(s, TimeScale::QZSST),
+        4 => f(s, TimeScale::GST),
+        _ => f(s, TimeScale::BDT),
+    }
+}
+
+#[inline(always)]
+pub fn with_uniform2<S: Src>(s: &mut S, a: TimeScale, f: impl Fn(&mut S, TimeScale, TimeScale)) {
+    let u = s.u8();
+    s.assume(u < 6);
+    match u {
+        0 => f(s, a, TimeScale::TAI),
+        1 => f(s, a, TimeScale::TT),
+        2 => f(s, a, TimeScale::GPST),
+        3 => f(s, a, TimeScale::QZSST),
+        4 => f(s, a, TimeScale::GST),
+        _ => f(s, a, TimeScale::BDT),
+    }
+}
+
+#[inline(always)]
+pub fn with_scale<S: Src>(s: &mut S, f: impl Fn(&mut S, TimeScale)) {
+    let u = s.u8();
+    s.assume(u < 9);
+    match u {
+        0 => f(s, TimeScale::TAI),
+        1 => f(s, TimeScale::TT),
+        2 => f(s, TimeScale::ET),
+        3 => f(s, TimeScale::TDB),
+        4 => f(s, TimeScale::UTC),
+        5 => f(s, TimeScale::GPST),
+        6 => f(s, TimeScale::GST),
+        7 => f(s, TimeScale::BDT),
+        _ => f(s, TimeScale::QZSST),
+    }
+}
